@@ -170,6 +170,10 @@ def run(an: Analysis, rep):
     rep.run(purity, an, rep, "R15.P", list(ENTRIES))
     from .common import assert_guard_rule as _agrx
     rep.run(_agrx, an, rep, "R15.G", list(ENTRIES))
+    from .common import set_order_rule as _sor
+    rep.run(_sor, an, rep, "R15.O", list(ENTRIES))
+    from .common import process_state_rule as _psr15
+    rep.run(_psr15, an, rep, "R15.T", list(ENTRIES))
     from .common import old_interpreter_rule
     rep.run(old_interpreter_rule, an, rep, "R15.V", list(ENTRIES))
     rep.run(c08.r083, an, SharedRules(rep, "R15.S", "what from_json_data builds has the shape the data classes declare (tuples, not the lists of the document) (shared with C08's R08.3): otherwise re-serialising the loaded data fails or differs"))
